@@ -13,7 +13,8 @@ R == Rows[i]
 \* while full maintenance is acknowledged nobody changes a server, the master key or the list
 C09_Frozen == R.kind = "frozen" => (R.sqlchanges = 0 /\ R.treewrites = 0)
 \* leaving succeeds only with exactly one alive master, which becomes the recorded master, list non-empty
-C09_Leave == R.kind = "leave" => (R.nmasters = 1 /\ R.masterkey = R.onlymaster /\ R.activenonempty)
+\* ("rebuilt": the leaving activation itself published the list before it removed the record)
+C09_Leave == R.kind = "leave" => (R.nmasters = 1 /\ R.masterkey = R.onlymaster /\ R.activenonempty /\ R.rebuilt)
 \* otherwise the mode is kept; several masters raise the emergency marker
 C09_StayWhenNotOneMaster == R.kind = "stay" => (R.recordkept /\ (R.nmasters >= 2 => R.emerge))
 \* a well-formed cluster does leave (bounded conformance of the happy path)
